@@ -57,7 +57,8 @@ func findTextwireFiles() (map[string]string, error) {
 			return err
 		}
 
-		if info.IsDir() || !strings.Contains(path, userConfig.TemplateExt) {
+		// only the files whose names end with the extension are templates
+		if info.IsDir() || !strings.HasSuffix(path, userConfig.TemplateExt) {
 			return nil
 		}
 
@@ -80,7 +81,14 @@ func findTextwireFiles() (map[string]string, error) {
 }
 
 func nameFromPath(path string) string {
-	name := strings.Replace(path, userConfig.TemplateDir+"/", "", 1)
-	name = strings.Replace(name, userConfig.TemplateExt, "", 1)
-	return name
+	// the name is the path relative to the template directory, whatever
+	// spelling the directory has ("./dir", "dir/.", "a/../dir")
+	name, err := filepath.Rel(userConfig.TemplateDir, path)
+	if err != nil {
+		name = strings.Replace(path, userConfig.TemplateDir+"/", "", 1)
+	}
+
+	// without the extension at its end; the same text may
+	// occur earlier in the name and must stay there
+	return strings.TrimSuffix(filepath.ToSlash(name), userConfig.TemplateExt)
 }
